@@ -1,0 +1,13 @@
+// +build verif
+
+package sys
+
+import "github.com/Comcast/rulio/core"
+
+// verifPoint calls core.VerifHook (if set) at points of interest for
+// the verification harness.
+func verifPoint(point string) {
+	if h := core.VerifHook; h != nil {
+		h(point)
+	}
+}
